@@ -167,7 +167,10 @@ func (e *Engine) registerCLIIntrinsics() {
 		parent := a[0].(Iface).V.(*ctxObj)
 		c := &ctxObj{r: r, done: &ChanV{}, tag: "timeout"}
 		parent.children = append(parent.children, c)
-		cancel := &hostFunc{name: "cancel", f: func(r *Run, fr *frame, a []Value) Value { return nil }}
+		cancel := &hostFunc{name: "cancel", f: func(r *Run, fr *frame, a []Value) Value {
+			c.cancel(*r.global(r.eng.prog.ImportedPackage("context").Var("Canceled")))
+			return nil
+		}}
 		return Tuple{Iface{T: r.eng.prog.ImportedPackage("context").Type("Context").Type(), V: c}, cancel}
 	}
 	in["(*github.com/fatih/color.Color).SprintFunc"] = func(r *Run, fr *frame, a []Value) Value {
@@ -277,10 +280,15 @@ func ctxKind(v Value) string {
 		return "nil"
 	}
 	if c, ok := i.V.(*ctxObj); ok {
+		k := "background"
 		if c.tag != "" {
-			return c.tag
+			k = c.tag
 		}
-		return "background"
+		if c.done != nil && c.done.closed {
+			// the context the library is handed is already cancelled (a cancel function that ran too early)
+			k += "(cancelled)"
+		}
+		return k
 	}
 	return "other"
 }
